@@ -373,7 +373,7 @@ Fixpoint users_closure (fuel : nat) (r : root) (d : list owner) : option (list o
            if Nat.eqb (length d') (length d) then Some d else users_closure n r d'
   end.
 
-(* the std unit must not vanish while its arena stays cached (finding F28 when it does) *)
+(* the std unit must not vanish while its arena stays cached (finding F29 when it does) *)
 Definition std_kept (r : root) (removed added : list owner) : Prop :=
   r_std r = None \/ mem_owner std_unit removed = false \/ mem_owner std_unit added = true.
 
